@@ -672,11 +672,27 @@ class PLSSDesc:
         if parse_qq is None:
             parse_qq = self.parse_qq
 
+        # Config for passing down to Tract objects. Tract-level settings
+        # passed here as keywords take precedence over the config.
+        handed_down = Config(self.config)
+        tract_level_kwargs = {
+            'clean_qq': clean_qq,
+            'qq_depth': qq_depth,
+            'qq_depth_min': qq_depth_min,
+            'qq_depth_max': qq_depth_max,
+            'break_halves': break_halves,
+        }
+        for att, val in tract_level_kwargs.items():
+            if val is not None:
+                setattr(handed_down, att, val)
+        if (qq_depth is None
+                and (qq_depth_min is not None or qq_depth_max is not None)):
+            # An explicit min/max overrides a configured exact depth.
+            handed_down.qq_depth = None
+        handed_down_config = handed_down.decompile_to_text()
+
         if clean_qq is None:
             clean_qq = self.clean_qq
-
-        # Config object for passing down to Tract objects.
-        handed_down_config = self.config.decompile_to_text()
 
         if segment is None:
             segment = self.segment
